@@ -82,7 +82,11 @@ def classify_opt_line(line):
 
 
 class LPContext(object):
-    """Reference view of one lp-family scenario."""
+    """Reference view of one lp-family scenario.  Everything that needs the
+    exhaustive enumeration is computed lazily, so that big instances (real
+    lane at scale) can use the parts that do not."""
+
+    ENUM_CAP = 60000
 
     def __init__(self, sc, inst_text=None):
         import instances
@@ -91,16 +95,37 @@ class LPContext(object):
             sc.get('inst_text') or instances.render(sc['inst']))
         self.text = text
         self.I = rm.parse(text, sc['na'], sc['twopl'])
-        self.W = rm.World(self.I)
         opts = sc.get('opts', {})
         self.pc = bool(opts.get('pc'))
         self.stab = bool(opts.get('stab'))
         self.crit = criteria_in_order(opts)
-        self.V = self.W.valid_set(self.pc)
-        self.F = self.W.feasible(self.pc, self.stab)
-        self.Fset = set(self.F)
-        self.LEX, self.bests, self.sizes = self.W.lex_filter(self.F, self.crit)
-        self.LEXset = set(self.LEX)
+        self._c = {}
+
+    def _enum(self):
+        if 'W' not in self._c:
+            if rm.space_size(self.I) > self.ENUM_CAP:
+                raise_harness('reference enumeration requested on a big '
+                              'instance (%d assignments)'
+                              % rm.space_size(self.I))
+            W = rm.World(self.I)
+            c = self._c
+            c['W'] = W
+            c['V'] = W.valid_set(self.pc)
+            c['F'] = W.feasible(self.pc, self.stab)
+            c['Fset'] = set(c['F'])
+            c['LEX'], c['bests'], c['sizes'] = W.lex_filter(c['F'],
+                                                            self.crit)
+            c['LEXset'] = set(c['LEX'])
+        return self._c
+
+    W = property(lambda self: self._enum()['W'])
+    V = property(lambda self: self._enum()['V'])
+    F = property(lambda self: self._enum()['F'])
+    Fset = property(lambda self: self._enum()['Fset'])
+    LEX = property(lambda self: self._enum()['LEX'])
+    bests = property(lambda self: self._enum()['bests'])
+    sizes = property(lambda self: self._enum()['sizes'])
+    LEXset = property(lambda self: self._enum()['LEXset'])
 
     def prefer(self, M):
         """adversarial tie-break: prefer optima the reference rejects."""
@@ -1073,3 +1098,90 @@ def raise_harness(msg):
     raise HarnessError(msg)
 
 LP_ORACLES.update({'C14': c14, 'C18': c18, 'C06': c06})
+
+
+# ---------------------------------------------------------------------------
+# real lane at scale ("big"): instances far beyond enumeration (10-24
+# students), real CBC end to end, oracles that need no enumeration
+# ---------------------------------------------------------------------------
+def _neighbours(I, M):
+    """assignments that differ from M in one student's project"""
+    for i in range(I.n1):
+        for p in [0] + [q for q, _ in I.prefs[i]]:
+            if p != M[i]:
+                yield M[:i] + (p,) + M[i + 1:]
+
+
+def big_oracle(prop, ctx, tr, prefix_results=None):
+    """C01 validity, C05 blocking pairs, C11 statistics, C03 local optimality
+    (a better valid neighbour disproves optimality), C04 'a later criterion
+    never worsens an earlier one' (values of the prefix runs)."""
+    res = {'violations': [], 'probes': {'big-lane': 1}, 'nontrivial': False,
+           'skipped': None}
+    I = ctx.I
+    kind, r = outcome(tr)
+    if kind == 'error':
+        e = r['exc']
+        if prop == 'C02':
+            res['violations'].append(
+                ('exception:' + e['type'], e['site'] or r['op'],
+                 {'msg': e['msg'], 'op': r['op'], 'tb': e['tb'],
+                  'big': True}))
+        else:
+            res['skipped'] = 'c02-class:error'
+        return res
+    if kind != 'optimal':
+        res['skipped'] = 'big-lane:not-optimal(%s)' % kind
+        return res
+    M = r['matching']
+    res['nontrivial'] = True
+    if prop in ('C01', 'C02', 'C09'):
+        br = rm.validity_breaches(I, M, ctx.pc)
+        if br:
+            res['violations'].append(
+                ('invalid-matching', _breach_site(br),
+                 {'matching': M, 'breaches': br, 'big': True}))
+    if not rm.acceptable(I, M) or len(M) != I.n1:
+        return res
+    if prop == 'C05' and ctx.stab:
+        bp = rm.blocking_pairs(I, M)
+        if bp and rm.valid(I, M, ctx.pc):
+            res['violations'].append(
+                ('unstable-matching', bp[0][2],
+                 {'matching': M, 'blocking_pairs': bp[:3], 'big': True}))
+        if r.get('stability_correct') != ('True' if not bp else 'False'):
+            res['probes']['stability_correct-disagrees'] = 1
+    if prop == 'C11':
+        v = c11(ctx, tr)
+        res['violations'] += v['violations']
+        res['probes'].update(v['probes'])
+    if prop == 'C03' and len(ctx.crit) == 1 and rm.valid(I, M, ctx.pc):
+        name, extra = ctx.crit[0]
+        k0 = rm.key(I, rm.measures(I, M), name, extra)
+        for N in _neighbours(I, M):
+            if not rm.valid(I, N, ctx.pc):
+                continue
+            if ctx.stab and not rm.stable(I, N):
+                continue
+            kn = rm.key(I, rm.measures(I, N), name, extra)
+            if kn < k0:
+                res['violations'].append(
+                    ('non-optimal', name,
+                     {'matching': M, 'value': k0, 'better_neighbour': N,
+                      'neighbour_value': kn, 'big': True}))
+                break
+    if prop == 'C04' and prefix_results:
+        for j, Mp in enumerate(prefix_results):
+            if Mp is None:
+                continue
+            name, extra = ctx.crit[j]
+            kp = rm.key(I, rm.measures(I, Mp), name, extra)
+            kf = rm.key(I, rm.measures(I, M), name, extra)
+            if kf != kp:
+                res['violations'].append(
+                    ('non-lex-optimal', name,
+                     {'matching': M, 'criterion_index': j, 'value': kf,
+                      'value_when_it_was_last': kp,
+                      'order': [n for n, _ in ctx.crit], 'big': True}))
+                break
+    return res
